@@ -291,6 +291,7 @@ class Check:
         cmd = [
             "java",
             "-XX:+UseParallelGC",
+            "-Xss128m",  # specification decoders recurse once per byte / point: deep stacks for TLC's worker threads
             "-Xmx" + heap,
             "-cp",
             TLA_JAR + ":" + TLA_DEPS,
